@@ -55,6 +55,25 @@ def scenarios(ctx: Ctx):
         scs.append({'topo': topo, 'progs': progsets[i % len(progsets)], 'clients': [s], 'sched': ['random', ctx.seed * 100003 + i],
                     'lines': False, 'crash': None, 'probe': topo[0] == 'detached'})
         i += 1
+    # late errors: a descendant raises while the root still completes (its future is never awaited); the ERROR may reach the
+    # server before or AFTER the root's RESULT was delivered.  The client then makes one more request after the system has
+    # settled: L1 demands that it fails with the task's error (raised-error-never-reported).  Needs >= 2 workers for the
+    # RESULT-first order (one worker's channel is FIFO); a second, undisturbed client rides along on detached servers.
+    nlate = 90 if ctx.quick else 3000
+    late_topos = [['detached', [2]], ['attached', 2], ['detached', [1, 1]], ['attached', 3], ['detached', [2, 1]], ['detached', [3]]]
+    for j in range(nlate):
+        topo = late_topos[j % len(late_topos)]
+        clients = [rtcheck.late_error_scripts(rng)]
+        if topo[0] == 'detached' and rng.random() < 0.3:
+            clients.append([['submit', 'O', 'leaf'], ['result', 'O']])
+        # two thirds of the runs steer the race itself (RESULT of the root read before the ERROR, harness/rtdrive.py RaceSched)
+        sched = [['race', ctx.seed * 100003 + i, 'root-result', 'task-error'], ['random', ctx.seed * 100003 + i],
+                 ['race', ctx.seed * 100003 + i, 'root-result', 'task-error'], ['delay', ctx.seed * 100003 + i, 0.08, 50, ['server.main', 'man']],
+                 ['race', ctx.seed * 100003 + i, 'root-result', 'task-error'], ['pct', ctx.seed * 100003 + i, 3]][j % 6]
+        scs.append({'topo': topo, 'progs': rtcheck.gen_late_error(rng), 'clients': clients, 'sched': sched, 'lines': False,
+                    'crash': None, 'probe': topo[0] == 'detached', 'family': 'late-error'})
+        i += 1
+    n += nlate
     # concurrent clients: client 0 runs a plain compilation, the others poke at their own, each other's and unknown ids
     while len(scs) < n:
         nc = rng.choice([2, 2, 3])
